@@ -40,12 +40,11 @@ static int op_sgn(int argc, tok_t *a, out_t *o) {
   NEED(argc == 4 && is_opnd(a));
   fv_t u; fv_opnd(&u, a, -1); out_long(o, mpf_sgn(u.f)); fv_free(&u); return 0;
 }
-/* n_bits <= 2^24, or >= ULONG_MAX-62 (there n_bits + cu + 63 wraps for every cu and n is 0 or 1): anything between makes
-   eq.c:90 loop for up to 2^58 iterations */
+/* any n_bits up to ULONG_MAX (before /repo b2b40d5 values between about 2^30 and ULONG_MAX-63 made eq.c loop for up to
+   2^58 iterations and larger ones wrapped) */
 static int op_eq(int argc, tok_t *a, out_t *o) {
   NEED(argc == 9 && is_opnd(a) && is_opnd(a + 4) && a[8].kind == T_NUM && !a[8].neg && a[8].n <= 1);
   mp_bitcnt_t nb = tok_ulong(&a[8]);
-  NEED(nb <= ((mp_bitcnt_t)1 << 24) || nb >= ~(mp_bitcnt_t)0 - 62);
   fv_t u, v; fv_opnd(&u, a, -1); fv_opnd(&v, a + 4, -1);
   out_long(o, mpf_eq(u.f, v.f, nb) != 0); fv_free(&u); fv_free(&v); return 0;
 }
